@@ -102,8 +102,10 @@ type cwRig struct {
 	mu            sync.Mutex
 	sendWFailed   map[int]bool         // calls with an operation that failed with a transport write error (see classFor)
 	keepAlive     []context.CancelFunc // cancel functions of inner contexts (released when the scenario is over)
-	holdTrailer   chan struct{}        // non-nil: the next OutTrailer stats event waits for it
-	holdPost      chan struct{}        // non-nil: the stream interceptor waits for it after the next handler return
+	wireMu        sync.Mutex
+	c2sWire       []*Rpc        // the client\'s envelopes in the order they were put on the wire
+	holdTrailer   chan struct{} // non-nil: the next OutTrailer stats event waits for it
+	holdPost      chan struct{} // non-nil: the stream interceptor waits for it after the next handler return
 	held          []chan struct{}
 	onWriteCancel int           // >= 0: the call whose context is cancelled inside the next client Write
 	onWriteGate   chan struct{} // non-nil: the next client Write returns only when the gate is closed
@@ -467,7 +469,14 @@ func (r *cwRig) do(a Step) []string {
 			r.link.C.BlockWrites()
 		}
 		go func() {
-			cs, err := r.cc.NewStream(ctx, kindDesc[kind], "/verif.Echo/"+kind)
+			desc, method := kindDesc[kind], "/verif.Echo/"+kind
+			switch kind {
+			case "Missing": // a method the server has not registered (a client built against a newer service)
+				desc, method = descBidi, "/verif.Echo/Missing"
+			case "NoService": // a service the server does not know
+				desc, method = descBidi, "/verif.Nobody/Bidi"
+			}
+			cs, err := r.cc.NewStream(ctx, desc, method)
 			r.mu.Lock()
 			r.strs[c] = cs
 			r.mu.Unlock()
@@ -596,6 +605,45 @@ func (r *cwRig) do(a Step) []string {
 			return []string{fmt.Sprintf("ACancel %d", a.C)}
 		}
 		return nil
+	case "cancelunblock":
+		// the client's transport takes no Write (step "cblock" before: a SendMsg may be parked in it); the caller cancels
+		// (D > 0: the virtual clock advances by D ms instead, deadlines expire) and THEN the back-pressure ends, all in one
+		// step: at the quiescent point the parked operation has returned and the reset is on the wire
+		var acts []string
+		if a.D > 0 {
+			time.Sleep(time.Duration(a.D) * time.Millisecond)
+			now := time.Now()
+			for c := range r.deadline {
+				if !r.deadline[c].IsZero() && !r.expired[c] && !now.Before(r.deadline[c]) {
+					r.expired[c] = true
+					acts = append(acts, fmt.Sprintf("AExpire %d", c))
+				}
+			}
+		} else if a.C < len(r.cancels) {
+			r.cancels[a.C]()
+			acts = append(acts, fmt.Sprintf("ACancel %d", a.C))
+		}
+		synctest.Wait()
+		r.link.C.UnblockWrites()
+		return acts
+	case "cancelall":
+		// every stream call opened so far is cancelled, back to back without yielding (as under one cancelled parent);
+		// B != 0: while the client's transport takes no Write, which is released afterwards within the step
+		if a.B != 0 {
+			r.link.C.BlockWrites()
+		}
+		var acts []string
+		for c := 0; c < len(r.cancels) && c < len(r.kinds); c++ {
+			if r.kinds[c] != "unary" {
+				r.cancels[c]()
+				acts = append(acts, fmt.Sprintf("ACancel %d", c))
+			}
+		}
+		if a.B != 0 {
+			synctest.Wait()
+			r.link.C.UnblockWrites()
+		}
+		return acts
 	case "cancelblk":
 		// the caller cancels while the client's transport accepts no Write: the teardown's RST_STREAM Write blocks until
 		// its own 30 s deadline and then fails (back-pressure, then a per-message failure); afterwards Writes work again.
@@ -796,6 +844,17 @@ func (r *cwRig) do(a Step) []string {
 		return nil
 	}
 	panic("cw: unknown op " + a.Op)
+}
+
+// c2sHistory: what the client wrote, in wire order
+func (r *cwRig) c2sHistory() []*Rpc {
+	w := r.link.C.WrittenCopy()
+	r.wireMu.Lock()
+	defer r.wireMu.Unlock()
+	if len(r.c2sWire) == len(w) {
+		return append([]*Rpc(nil), r.c2sWire...)
+	}
+	return w
 }
 
 func (r *cwRig) releaseHeld() {
@@ -1169,7 +1228,7 @@ func runCwScenario(t *testing.T, idx int, kind string, sc cwScenario, em *Emitte
 		// called by the watchdog (outside the bubble) when a goroutine waits for a mutex for ever
 		var ws, wsS []*Rpc
 		if rig != nil {
-			ws, wsS = rig.link.C.WrittenCopy(), rig.link.S.WrittenCopy()
+			ws, wsS = rig.c2sHistory(), rig.link.S.WrittenCopy()
 			if rig.mode == "server" {
 				rig.mu.Lock()
 				ws = append([]*Rpc(nil), rig.cliSent...)
@@ -1195,7 +1254,12 @@ func runCwScenario(t *testing.T, idx int, kind string, sc cwScenario, em *Emitte
 		rig.onWriteCancel = -1
 		fwd := link.C.OnWrite
 		link.C.OnWrite = func(w *Rpc) {
+			// the Endpoint appends to Written under its lock but forwards to the wire after releasing it: with concurrent
+			// writers (mass cancellation) the two orders can differ; the history that is judged is the WIRE's order
+			rig.wireMu.Lock()
 			fwd(w)
+			rig.c2sWire = append(rig.c2sWire, w)
+			rig.wireMu.Unlock()
 			rig.mu.Lock()
 			k, g := rig.onWriteCancel, rig.onWriteGate
 			rig.onWriteCancel, rig.onWriteGate = -1, nil
@@ -1291,7 +1355,7 @@ func runCwScenario(t *testing.T, idx int, kind string, sc cwScenario, em *Emitte
 		wd.mu.Lock()
 		wd.active = false
 		wd.mu.Unlock()
-		c2s, s2c = link.C.WrittenCopy(), link.S.WrittenCopy()
+		c2s, s2c = rig.c2sHistory(), link.S.WrittenCopy()
 		if sc.Mode == "server" {
 			rig.mu.Lock()
 			c2s = append([]*Rpc(nil), rig.cliSent...)
